@@ -112,27 +112,8 @@ theorem no_usedKey (hw : Bool) (a : Nat) (i : Instr) (s s' : State) (pc : Int) (
 /-! ## Isolation -/
 
 theorem run_apps_other (hw : Bool) (a : Nat) (prog : List Instr) (fuel : Nat) (s : State) (pc : Int)
-    (b : Nat) (hb : b ≠ a) : (run hw a prog fuel s pc).s.apps b = s.apps b := by
-  induction fuel generalizing s pc with
-  | zero => rw [run_zero]; split <;> rfl
-  | succ n ih =>
-    unfold run
-    split
-    · rfl
-    · split
-      · rfl
-      · split
-        · rfl
-        · rename_i i _
-          have := step_apps_other hw a i s pc b hb
-          split
-          · rename_i s' pc' hs
-            rw [hs] at this
-            simp only []
-            rw [ih s' pc']; exact this
-          · rename_i s' f hs
-            rw [hs] at this
-            exact this
+    (b : Nat) (hb : b ≠ a) : (run hw a prog fuel s pc).s.apps b = s.apps b :=
+  Exec.run_apps_other hw a prog fuel s pc b hb
 
 /-- the application an operation belongs to -/
 def opApp : Op → Option Nat
